@@ -31,7 +31,7 @@ from __future__ import annotations
 
 import ast
 
-from ..astutil import attr_chain, bind_args, callee_name, calls, is_name, is_self_attr, names_in, text, unwrap_await
+from ..astutil import call_recv, attr_chain, bind_args, callee_name, calls, is_name, is_self_attr, names_in, text, unwrap_await
 from ..core import Result
 from ..flow import MustFlow, node_calls
 from ..model import AnchorMissing, Repo, fold_str, walk_no_nested
@@ -94,7 +94,7 @@ def run(repo: Repo) -> Result:
                 res.ob(f"{f.qual}:{text(c)[:50]}")
                 ctx_arg = c.args[0] if c.args else next((k.value for k in c.keywords if k.arg == "context"), None)
                 srcs = vals.get(ctx_arg.id, []) if isinstance(ctx_arg, ast.Name) else []
-                copies = [s for s in srcs if isinstance(s, ast.Call) and callee_name(s) == "copy" and isinstance(s.func, ast.Attribute) and is_name(s.func.value, "context")]
+                copies = [s for s in srcs if isinstance(s, ast.Call) and callee_name(s) == "copy" and isinstance(s.func, ast.Attribute) and is_name(call_recv(s), "context")]
                 if not copies or len(copies) != len(srcs):
                     res.add("C15-COPY", f.qual, f"{callee_name(c)}:ctx={text(ctx_arg) if ctx_arg is not None else None}", f"{f.qual}: the body is rendered on `{text(ctx_arg) if ctx_arg is not None else None}`, which is not (only) the result of context.copy(...): caller variables are visible to it", f.file, c.lineno)
                     continue
